@@ -1,1 +1,361 @@
-// harness for rs/anda_cognitive_nexus/src/governance/decision.rs (mounted by #[cfg(kani)] hook)
+// @module governance::decision::verif_kani
+// Kani harnesses for rs/anda_cognitive_nexus/src/governance/decision.rs — property C19:
+// default-deny matching (covers, scope_matches, reaches_classification, conditions_hold,
+// candidate_matches), immediate expiry, and attenuation of scope / conditions through the real
+// `contains` functions that resolve_delegation consults.
+use super::*;
+include!("/verif/harness/common.rs");
+
+fn lab() -> String {
+    let b: u8 = kani::any();
+    kani::assume(b >= b'a' && b <= b'c');
+    unsafe { String::from_utf8_unchecked(vec![b]) }
+}
+fn opt_lab() -> String {
+    if kani::any() { String::new() } else { lab() }
+}
+fn list() -> Vec<String> {
+    let n: u8 = kani::any();
+    kani::assume(n <= 2);
+    match n {
+        0 => vec![],
+        1 => vec![lab()],
+        _ => vec![lab(), lab()],
+    }
+}
+/// independent reading of "bounded list admits value" (empty = everything; empty value never
+/// matches a bounded list)
+fn admits(bound: &[String], value: &str) -> bool {
+    if bound.is_empty() {
+        return true;
+    }
+    if value.is_empty() {
+        return false;
+    }
+    let mut i = 0;
+    let mut hit = false;
+    while i < bound.len() {
+        if bound[i].as_bytes()[0] == value.as_bytes()[0] {
+            hit = true;
+        }
+        i += 1;
+    }
+    hit
+}
+fn instant() -> String {
+    let a: u8 = kani::any();
+    let b: u8 = kani::any();
+    kani::assume(a >= b'0' && a <= b'9' && b >= b'0' && b <= b'9');
+    unsafe { String::from_utf8_unchecked(vec![a, b]) }
+}
+fn opt_instant() -> String {
+    if kani::any() { String::new() } else { instant() }
+}
+fn class_label(i: u8) -> &'static str {
+    match i % 7 {
+        0 => "",
+        1 => "public",
+        2 => "internal",
+        3 => "private",
+        4 => "sensitive",
+        5 => "secret",
+        _ => "zz",
+    }
+}
+fn strength(i: u8) -> &'static str {
+    match i % 5 {
+        0 => "",
+        1 => "none",
+        2 => "standard",
+        3 => "strong",
+        _ => "zz",
+    }
+}
+fn assurance(i: u8) -> &'static str {
+    match i % 6 {
+        0 => "",
+        1 => "declared",
+        2 => "session_bound",
+        3 => "system_bound",
+        4 => "approved",
+        _ => "zz",
+    }
+}
+fn auth_with(strength_: &str, assurance_: &str, purpose: String) -> AuthContext {
+    let mut a = AuthContext::principal("p");
+    a.auth_strength = strength_.to_string();
+    a.purpose_assurance = assurance_.to_string();
+    a.purpose = purpose;
+    a
+}
+
+// K1 -------------------------------------------------------------------------------------------
+// @check id=C19 tier=quick cap=600 role=covers_default_deny
+// @fns governance::decision::covers, governance::decision::scope_matches
+// @bound four bounded lists of 0..2 one-byte labels (symbolic bytes a..c), resource kind / schema_ref / classification / element id each "" or a one-byte label
+#[kani::proof]
+#[kani::unwind(4)]
+fn c19_scope_matches_is_per_dimension_membership() {
+    let scope = AuthorityScope { kinds: list(), schema_refs: list(), classifications: list(), elements: list() };
+    let res = ResourceContext { kind: opt_lab(), schema_ref: opt_lab(), classification: opt_lab(), element_id: opt_lab() };
+    let got = scope_matches(&scope, &res);
+    let expect = admits(&scope.kinds, &res.kind)
+        && admits(&scope.schema_refs, &res.schema_ref)
+        && admits(&scope.classifications, &res.classification)
+        && admits(&scope.elements, &res.element_id);
+    assert!(got == expect, "a scope matches iff every bounded dimension contains the resource's (non-empty) value");
+    if !scope.elements.is_empty() && res.element_id.is_empty() {
+        assert!(!got, "no particular element in view never matches a grant narrowed to elements");
+    }
+    kani::cover!(got && !scope.kinds.is_empty() && !scope.elements.is_empty(), "matched under two bounded dimensions");
+    kani::cover!(!got && admits(&scope.kinds, &res.kind) && admits(&scope.elements, &res.element_id), "refused by schema_ref or classification dimension");
+    std::mem::forget((scope, res));
+}
+
+// @check id=C19 tier=quick cap=900 role=conditions_hold_truth_table
+// @fns governance::decision::conditions_hold, governance::rows::auth_strength::rank, governance::rows::purpose_assurance::rank
+// @bound valid_from / valid_until "" or any two-digit instant, now any two-digit instant; min/actual auth strength and purpose assurance over every defined name + "" + unknown; purpose list 0..2 labels, actual purpose "" or a label
+// @assume instants are fixed-width RFC 3339 UTC strings, so lexicographic order is chronological order
+#[kani::proof]
+#[kani::unwind(15)]
+fn c19_conditions_hold_truth_table_and_immediate_expiry() {
+    let (s_min, s_act) = (strength(kani::any()), strength(kani::any()));
+    let (p_min, p_act) = (assurance(kani::any()), assurance(kani::any()));
+    let cond = AuthorityConditions {
+        purpose: list(),
+        min_purpose_assurance: p_min.to_string(),
+        min_auth_strength: s_min.to_string(),
+        valid_from: opt_instant(),
+        valid_until: opt_instant(),
+    };
+    let auth = auth_with(s_act, p_act, opt_lab());
+    let now = instant();
+    let got = conditions_hold(&cond, &auth, &now);
+    let srank = |s: &str| match s { "strong" => 2u8, "standard" => 1, _ => 0 };
+    let prank = |s: &str| match s { "approved" => 3u8, "system_bound" => 2, "session_bound" => 1, _ => 0 };
+    let purpose_ok = if cond.purpose.is_empty() { true } else {
+        // an allow-listed purpose must be stated and listed
+        let mut hit = false;
+        let mut i = 0;
+        while i < cond.purpose.len() {
+            if !auth.purpose.is_empty() && cond.purpose[i].as_bytes()[0] == auth.purpose.as_bytes()[0] {
+                hit = true;
+            }
+            i += 1;
+        }
+        hit
+    };
+    let expect = (cond.valid_from.is_empty() || now.as_str() >= cond.valid_from.as_str())
+        && (cond.valid_until.is_empty() || now.as_str() < cond.valid_until.as_str())
+        && srank(s_act) >= srank(s_min)
+        && prank(p_act) >= prank(p_min)
+        && purpose_ok;
+    assert!(got == expect, "conditions hold iff inside [valid_from, valid_until), strong enough, assured enough and for a listed purpose");
+    if !cond.valid_until.is_empty() && now.as_str() >= cond.valid_until.as_str() {
+        assert!(!got, "expiry is immediate: at valid_until the authority is gone");
+    }
+    if srank(s_min) > 0 && (s_act == "zz" || s_act.is_empty()) {
+        assert!(!got, "an unknown or absent auth strength satisfies no bar");
+    }
+    kani::cover!(got && !cond.valid_until.is_empty() && !cond.valid_from.is_empty(), "inside a two-sided window");
+    kani::cover!(!got && now.as_str() == cond.valid_until.as_str(), "refused exactly at valid_until");
+    kani::cover!(!got && expect_only_purpose(&cond, &auth), "refused by purpose");
+    std::mem::forget((cond, auth, now));
+}
+fn expect_only_purpose(cond: &AuthorityConditions, auth: &AuthContext) -> bool {
+    !cond.purpose.is_empty() && auth.purpose.is_empty()
+}
+
+// @check id=C19 tier=quick cap=900 role=candidate_default_deny
+// @fns governance::decision::candidate_matches, governance::decision::scope_matches, governance::decision::reaches_classification, governance::decision::conditions_hold, governance::classification::rank
+// @bound candidate: action list [] / [read] / [update] / [update, read]; scope kinds & elements lists of 0..2 symbolic labels; classification ceiling and resource classification over every defined label + "" + unknown; validity window and now symbolic two-digit instants; resource kind a label, element "" or a label
+#[kani::proof]
+#[kani::unwind(12)]
+fn c19_candidate_matches_is_default_deny() {
+    let act: u8 = kani::any();
+    kani::assume(act < 4);
+    let actions: Vec<String> = match act {
+        0 => vec![],
+        1 => vec!["read".to_string()],
+        2 => vec!["update".to_string()],
+        _ => vec!["update".to_string(), "read".to_string()],
+    };
+    let ceiling = class_label(kani::any());
+    let res_class = class_label(kani::any());
+    let cand = Candidate {
+        id: String::new(),
+        actions,
+        scope: AuthorityScope { kinds: list(), schema_refs: vec![], classifications: vec![], elements: list() },
+        conditions: AuthorityConditions { valid_from: opt_instant(), valid_until: opt_instant(), ..Default::default() },
+        constraints: AuthorityConstraints { max_classification: ceiling.to_string(), ..Default::default() },
+        delegation_allowed: false,
+    };
+    let res = ResourceContext { kind: lab(), schema_ref: String::new(), classification: res_class.to_string(), element_id: opt_lab() };
+    let auth = AuthContext::principal("p");
+    let now = instant();
+    let got = candidate_matches(&cand, Permission::Read, &res, &auth, &now);
+    let crank = |s: &str| match s { "public" => 0u8, "internal" | "" => 1, "private" => 2, "sensitive" => 3, "secret" => 4, _ => 255 };
+    let listed = act == 1 || act == 3;
+    let in_scope = admits(&cand.scope.kinds, &res.kind) && admits(&cand.scope.elements, &res.element_id);
+    let under_ceiling = ceiling.is_empty() || crank(res_class) <= crank(ceiling);
+    let in_window = (cand.conditions.valid_from.is_empty() || now.as_str() >= cand.conditions.valid_from.as_str())
+        && (cand.conditions.valid_until.is_empty() || now.as_str() < cand.conditions.valid_until.as_str());
+    assert!(got == (listed && in_scope && under_ceiling && in_window), "an authority applies iff the permission is listed, the resource is in scope and under the ceiling, and the window is open");
+    if act == 0 {
+        assert!(!got, "an empty action list confers nothing");
+    }
+    if res_class == "zz" && !ceiling.is_empty() && ceiling != "zz" {
+        assert!(!got, "an unknown classification never falls below a stated ceiling");
+    }
+    kani::cover!(got && !cand.scope.kinds.is_empty() && !ceiling.is_empty(), "allowed under a bounded scope and a ceiling");
+    kani::cover!(!got && listed && in_scope && in_window, "refused by the classification ceiling alone");
+    kani::cover!(!got && listed && in_scope && under_ceiling, "refused by the validity window alone");
+    std::mem::forget((cand, res, auth, now));
+}
+
+// A command with no particular element in view (space scope) is judged on actions and conditions only.
+// @check id=C19 tier=quick cap=600 role=space_scope
+// @fns governance::decision::candidate_matches, governance::decision::ResourceContext::is_space_scope
+// @bound space-scope resource (all four fields empty); candidate scope lists symbolic; action listed or not; window symbolic
+#[kani::proof]
+#[kani::unwind(12)]
+fn c19_space_scope_still_needs_action_and_open_window() {
+    let listed: bool = kani::any();
+    let cand = Candidate {
+        id: String::new(),
+        actions: if listed { vec!["read".to_string()] } else { vec!["update".to_string()] },
+        scope: AuthorityScope { kinds: list(), schema_refs: vec![], classifications: vec![], elements: list() },
+        conditions: AuthorityConditions { valid_until: opt_instant(), ..Default::default() },
+        constraints: AuthorityConstraints::default(),
+        delegation_allowed: false,
+    };
+    let res = ResourceContext::default();
+    let auth = AuthContext::principal("p");
+    let now = instant();
+    let got = candidate_matches(&cand, Permission::Read, &res, &auth, &now);
+    let open = cand.conditions.valid_until.is_empty() || now.as_str() < cand.conditions.valid_until.as_str();
+    assert!(got == (listed && open), "space scope: listed action and open window, nothing else");
+    kani::cover!(got && !cand.scope.kinds.is_empty(), "scoped grant may run its own space-level command");
+    kani::cover!(!got && listed, "expired at space scope");
+    std::mem::forget((cand, res, auth, now));
+}
+
+// K2 attenuation through the real contains() -----------------------------------------------------
+// @check id=C19 tier=quick cap=900 role=scope_attenuation
+// @fns governance::rows::AuthorityScope::contains, governance::rows::narrows, governance::decision::scope_matches
+// @bound parent and child scopes: kinds and elements lists of 0..2 symbolic labels (schema_refs / classifications: 0..1); resource fields "" or a label
+#[kani::proof]
+#[kani::unwind(4)]
+fn c19_contained_scope_admits_no_more_than_parent() {
+    let l01 = || if kani::any() { vec![] } else { vec![lab()] };
+    let parent = AuthorityScope { kinds: list(), schema_refs: l01(), classifications: l01(), elements: list() };
+    let child = AuthorityScope { kinds: list(), schema_refs: l01(), classifications: l01(), elements: list() };
+    let res = ResourceContext { kind: opt_lab(), schema_ref: opt_lab(), classification: opt_lab(), element_id: opt_lab() };
+    let contained = parent.contains(&child);
+    if contained && scope_matches(&child, &res) {
+        assert!(scope_matches(&parent, &res), "a delegation's scope admits nothing its delegator's does not");
+    }
+    kani::cover!(contained && !parent.kinds.is_empty() && !parent.elements.is_empty(), "contained under a bounded parent");
+    kani::cover!(!contained && !parent.kinds.is_empty() && child.kinds.is_empty(), "unrestricted child refused");
+    std::mem::forget((parent, child, res));
+}
+
+// @check id=C19 tier=quick cap=900 role=conditions_attenuation_window
+// @fns governance::rows::AuthorityConditions::contains, governance::rows::at_least, governance::rows::at_most, governance::decision::conditions_hold
+// @bound parent and child windows "" or two-digit instants (purpose and bars unstated); now a two-digit instant
+#[kani::proof]
+#[kani::unwind(10)]
+fn c19_contained_conditions_window() {
+    let parent = AuthorityConditions { valid_from: opt_instant(), valid_until: opt_instant(), ..Default::default() };
+    let child = AuthorityConditions { valid_from: opt_instant(), valid_until: opt_instant(), ..Default::default() };
+    let auth = auth_with("standard", "", String::new());
+    let now = instant();
+    let contained = parent.contains(&child);
+    if contained && conditions_hold(&child, &auth, &now) {
+        assert!(conditions_hold(&parent, &auth, &now), "whenever the delegation's window is open, the delegator's is");
+    }
+    if contained && !parent.valid_until.is_empty() {
+        assert!(!child.valid_until.is_empty() && child.valid_until.as_str() <= parent.valid_until.as_str(), "a delegation never outlives its delegator");
+    }
+    kani::cover!(contained && !parent.valid_until.is_empty() && !parent.valid_from.is_empty(), "contained under a two-sided parent window");
+    kani::cover!(!contained && parent.valid_from.is_empty(), "refused on valid_until alone");
+    std::mem::forget((parent, child, auth, now));
+}
+
+// (thorough: 317 s measured; the quick tier decides the same clause through c19_narrows_implies_child_admits_subset
+// and the purpose column of c19_conditions_hold_truth_table_and_immediate_expiry)
+// @check id=C19 tier=thorough cap=1500 role=conditions_attenuation_purpose
+// @fns governance::rows::AuthorityConditions::contains, governance::rows::narrows, governance::decision::conditions_hold
+// @bound parent and child purpose lists of 0..2 one-byte labels; actual purpose "" or a label (window and bars unstated)
+#[kani::proof]
+#[kani::unwind(10)]
+fn c19_contained_conditions_purpose() {
+    let parent = AuthorityConditions { purpose: list(), ..Default::default() };
+    let child = AuthorityConditions { purpose: list(), ..Default::default() };
+    let auth = auth_with("standard", "", opt_lab());
+    let contained = parent.contains(&child);
+    if contained && conditions_hold(&child, &auth, "11") {
+        assert!(conditions_hold(&parent, &auth, "11"), "a delegation is not usable for a purpose its delegator is not");
+    }
+    kani::cover!(contained && parent.purpose.len() == 2 && child.purpose.len() == 1, "contained under a purpose-limited parent");
+    kani::cover!(!contained && child.purpose.is_empty(), "any-purpose child refused");
+    std::mem::forget((parent, child, auth));
+}
+
+// window and purpose together (thorough: 452 s measured)
+// @check id=C19 tier=thorough cap=1500 role=conditions_attenuation_window_purpose
+// @fns governance::rows::AuthorityConditions::contains, governance::decision::conditions_hold
+// @bound purpose lists 0..2 labels and windows symbolic at once
+#[kani::proof]
+#[kani::unwind(10)]
+fn c19_contained_conditions_window_and_purpose() {
+    let parent = AuthorityConditions { purpose: list(), valid_from: opt_instant(), valid_until: opt_instant(), ..Default::default() };
+    let child = AuthorityConditions { purpose: list(), valid_from: opt_instant(), valid_until: opt_instant(), ..Default::default() };
+    let auth = auth_with("standard", "", opt_lab());
+    let now = instant();
+    let contained = parent.contains(&child);
+    if contained && conditions_hold(&child, &auth, &now) {
+        assert!(conditions_hold(&parent, &auth, &now), "whenever the delegation's conditions hold, the delegator's hold");
+    }
+    kani::cover!(contained && !parent.valid_until.is_empty() && !parent.purpose.is_empty(), "contained under a bounded parent");
+    std::mem::forget((parent, child, auth, now));
+}
+
+// @check id=C19 tier=quick cap=900 role=conditions_attenuation_bars
+// @fns governance::rows::AuthorityConditions::contains, governance::decision::conditions_hold, governance::rows::auth_strength::rank, governance::rows::purpose_assurance::rank
+// @bound parent / child / actual auth strength and purpose assurance: each over every defined name + "" + unknown; no window, no purpose list
+#[kani::proof]
+#[kani::unwind(15)]
+fn c19_contained_conditions_strength_and_assurance_bars() {
+    let parent = AuthorityConditions { min_auth_strength: strength(kani::any()).to_string(), min_purpose_assurance: assurance(kani::any()).to_string(), ..Default::default() };
+    let child = AuthorityConditions { min_auth_strength: strength(kani::any()).to_string(), min_purpose_assurance: assurance(kani::any()).to_string(), ..Default::default() };
+    let auth = auth_with(strength(kani::any()), assurance(kani::any()), String::new());
+    let contained = parent.contains(&child);
+    if contained && conditions_hold(&child, &auth, "11") {
+        assert!(conditions_hold(&parent, &auth, "11"), "a delegation never lowers the authentication or purpose bar");
+    }
+    kani::cover!(contained && parent.min_auth_strength.len() == 6, "contained under a 'strong' bar");
+    kani::cover!(!contained && parent.min_purpose_assurance.is_empty(), "refused on the auth strength bar alone");
+    std::mem::forget((parent, child, auth));
+}
+
+// @check id=C19 tier=thorough cap=600 expect=fail role=witness
+// @fns governance::decision::candidate_matches
+// @bound vacuity twin: must come back FAILED
+#[kani::proof]
+#[kani::unwind(8)]
+fn c19_witness_must_fail() {
+    let cand = Candidate {
+        id: String::new(),
+        actions: vec!["read".to_string()],
+        scope: AuthorityScope { kinds: list(), ..Default::default() },
+        conditions: AuthorityConditions::default(),
+        constraints: AuthorityConstraints::default(),
+        delegation_allowed: false,
+    };
+    let res = ResourceContext { kind: lab(), ..Default::default() };
+    let auth = AuthContext::principal("p");
+    let got = candidate_matches(&cand, Permission::Read, &res, &auth, "11");
+    std::mem::forget((cand, res, auth));
+    assert!(!got && got, "reachability witness");
+}
